@@ -194,8 +194,9 @@ def runOps : S → List Op → List (S × Out)
   | _, [] => []
   | s, op :: rest => let r := stepOp s op; r :: runOps r.1 rest
 
-/-! ## what the monitor reads from a line (`Driver/Afmon.lean`'s parser applied to `Driver/Af.lean`'s printer: the
-part before ` | `; checked on every output shape by `#guard` in `KAT/AfAns.lean`) -/
+/-! ## what the monitor reads from a line (`Driver/Afmon.lean`'s parser applied to the L1 tokens `Driver/Af.lean`
+prints: proved in `Proofs/AfAns.lean`, `af_parseAns_l1Toks`; the cut of the printed line into tokens is tested by
+`#guard` in `KAT/AfAns.lean`) -/
 
 def headOf : NetRes → Head
   | .ok => .ok | .fail => .fail | .exists_ => .exists_ | .noent => .noent | .broken => .other
